@@ -430,14 +430,13 @@ func rulesC16(w *World, r *Report) {
 		if fn.Parent() != nil || fn.Signature.Recv() != nil {
 			continue
 		}
-		sig := fn.Signature
-		if sig.Params().Len() != 2 || typeStr(sig.Params().At(0).Type()) != "reflect.Type" {
+		if !isTypeWalker(fn) {
 			continue
 		}
-		if _, isMap := sig.Params().At(1).Type().Underlying().(*types.Map); !isMap {
-			continue
-		}
-		rec := callsTo(fn, fn)
+		// recursive calls: to fn itself or to another walker (same signature
+		// shape) from which fn is reached again — a struct case extracted into
+		// a helper recurses through the dispatcher
+		rec := w.typeWalkRecCalls(fn)
 		if len(rec) == 0 {
 			continue
 		}
